@@ -24,6 +24,9 @@ func init() {
 		Run: runC08,
 		Controls: []Control{
 			{Name: "attribute-equality-completed-by-otc", File: "route/bgp_path.go", Old: "\tif b.EBGP != c.EBGP || b.AtomicAggregate != c.AtomicAggregate || b.Origin != c.Origin {", New: "\tif b.EBGP != c.EBGP || b.AtomicAggregate != c.AtomicAggregate || b.Origin != c.Origin || b.OnlyToCustomer != c.OnlyToCustomer {", Expect: "removal-key-avoids-export-only-rewrites"},
+			{Name: "route-copy-on-the-receivers-array", File: "route/route.go", Old: "\tn.paths = make([]*Path, len(r.paths))\n\tcopy(n.paths, r.paths)\n", New: "\tn.paths = append(r.paths[:0], r.paths...)\n", Expect: "route-copy-owns-its-path-list"},
+			{Name: "route-copy-by-append-to-nil", Silent: true, File: "route/route.go", Old: "\tn.paths = make([]*Path, len(r.paths))\n\tcopy(n.paths, r.paths)\n", New: "\tn.paths = append([]*Path(nil), r.paths...)\n"},
+			{Name: "refresh-skipped-for-empty-table", File: "routingtable/adjRIBOut/adj_rib_out.go", Old: "\ta.exportFilterChainPending = c\n\ta.rib.RefreshClient(a)\n", New: "\ta.exportFilterChainPending = c\n\tif a.rt.GetRouteCount() > 0 {\n\t\ta.rib.RefreshClient(a)\n\t}\n", Expect: "refresh-is-unconditional"},
 			{Name: "not-found-decided-by-pointer-identity", File: "routingtable/adjRIBOut/adj_rib_out.go", Old: "\t\tif !found {\n\t\t\treturn false\n\t\t}\n", New: "\t\tif !found || sentPath == p {\n\t\t\treturn false\n\t\t}\n", Expect: "table-removal-is-withdrawn"},
 			{Name: "remove-uses-pre-policy-key", File: "routingtable/adjRIBOut/adj_rib_out.go", Old: "\tp, reject := a.exportFilterChain.Process(pfx, p)\n\tif reject {\n\t\treturn false\n\t}\n\n\treturn a.removeExportedPath(pfx, p)", New: "\t_, reject := a.exportFilterChain.Process(pfx, p)\n\tif reject {\n\t\treturn false\n\t}\n\n\treturn a.removeExportedPath(pfx, p)", Expect: "export-transformers-paired"},
 			{Name: "add-skips-propagation-rules", File: "routingtable/adjRIBOut/adj_rib_out.go", Old: "\tp, propagate := a.checkPropagateUpdate(pfx, p)\n\tif !propagate {\n\t\treturn nil\n\t}\n\n\tp, reject := a.exportFilterChain.Process(pfx, p)\n\tif reject {\n\t\treturn nil\n\t}\n\n\tp.BGPPath = p.BGPPath.Dedup()", New: "\tp, reject := a.exportFilterChain.Process(pfx, p)\n\tif reject {\n\t\treturn nil\n\t}\n\n\tp.BGPPath = p.BGPPath.Dedup()", Expect: "export-transformers-paired"},
@@ -228,6 +231,8 @@ func exportTransformerPairing(c *core.Ctx) {
 }
 
 func runC08(c *core.Ctx) {
+	routeCopyOwnsItsPathList(c, "route-copy-owns-its-path-list")
+	refreshIsUnconditional(c, "refresh-is-unconditional")
 	tableRemovalIsWithdrawn(c, "table-removal-is-withdrawn")
 	p := c.P
 	exportTransformerPairing(c)
